@@ -972,41 +972,79 @@ def _switch_arms(sw):
 
 
 def tab5a(units, R):
+    """The escape table of parse_string, read off its paths rather than off a switch: the decoding loop is followed with the set of
+    values the two bytes under the input cursor can have (byte-path engine; a search of a constant table by strchr/memchr finds what
+    C finds, terminator included).  For every value 0..255 of the byte after a backslash: the loop goes on exactly for the nine
+    RFC 8259 escape letters, writes the byte the letter stands for (one byte, input advanced by two), and everything else fails."""
+    from . import bytepath as bp
     u = units['cJSON.c']
     fn = u.fn('parse_string')
-    sws = [s for s in fn.nodes() if s.get('k') == 'switch']
-    if not sws:
-        raise AnalysisBroken('TAB5a: escape switch of parse_string not found (table re-expressed?)')
-    sw = sws[0]
-    cond = strip_casts(sw['c'])
+    ex = bp.explore(u, fn)
+    BS = frozenset([ord('\\')])
+    # the decoding loop: segments that start at a loop head, see a backslash under a cursor and constrain the byte after it
+    cands = {}
+    for sg in bp.loop_segments(ex):
+        for c in sg.readers:
+            if sg.bytes_at(c) == BS and sg.bytes_at(c, 1) != bp.ALL:
+                cands.setdefault((sg.start, c), []).append(sg)
+    heads = {}
+    for (h, c), sgs in cands.items():
+        if any(sg.end[0] == 'head' and any(w[3] is not None for w in sg.writes) for sg in sgs):
+            heads[(h, c)] = sgs
+    if len(heads) != 1:
+        raise AnalysisBroken('TAB5a: the decoding loop of parse_string cannot be identified (%d candidates)' % len(heads))
+    (head, cin), _ = next(iter(heads.items()))
+    segs = [sg for sg in bp.loop_segments(ex, head) if sg.bytes_at(cin) == BS]
     table = {}
-    for (labels, stmts) in _switch_arms(sw):
-        action = None
-        for s in stmts:
-            for x in walk(s):
-                if x.get('k') == 'bin' and x['op'] == '=' and strip_casts(x['l']).get('k') == 'un':
-                    v = const_val(x['r'])
-                    if v is not None:
-                        action = v
-                    elif expr_str(strip_casts(x['r'])) == expr_str(cond):
-                        action = 'self'
-                elif x.get('k') == 'call' and callee_name(x) and 'utf16' in callee_name(x) and action is None:
-                    action = 'utf16'
-                elif x.get('k') == 'goto' and action is None:
-                    action = 'fail'
-        for lb in labels:
-            table[lb] = action
+    bad_shape = []
+    for d in range(256):
+        acts = set()
+        for sg in segs:
+            if d not in sg.bytes_at(cin, 1):
+                continue
+            f = bp.feasible(ex, sg, {(sg.start_root[cin], 1): d})
+            if f is False:
+                continue
+            if sg.end[0] == 'head':
+                ws = [w for w in sg.writes if w[3] is not None]
+                adv = sg.adv(cin)
+                if not ws and adv != 2:
+                    acts.add('call')          # converted by a callee that moves the cursor itself (the UTF-16 arm)
+                elif len(ws) == 1 and adv == 2 and all(sg.adv(w[3]) == 1 for w in ws) and ws[0][1] == 0:
+                    v = ws[0][2]
+                    if v is not None and v[0] == 'k':
+                        acts.add(v[1] & 255)
+                    elif v is not None and v[0] == 'in' and v[1:] == (sg.start_root[cin], 1):
+                        acts.add(d)
+                    else:
+                        acts.add('?')
+                        bad_shape.append((d, sg.line, 'writes a value that is not determined by the escape letter'))
+                else:
+                    acts.add('?')
+                    bad_shape.append((d, sg.line, 'writes %d byte(s), advances the input by %s' % (len(ws), adv)))
+            elif sg.end[0] == 'return' and sg.end[1] == ('k', 0):
+                if sg.bytes_at(cin, 1) != bp.ALL:
+                    acts.add('fail')
+                # failures that do not depend on the letter (buffer end) say nothing about the table
+            else:
+                acts.add('?')
+        table[d] = acts
     n = 0
     for ch, want in RFC8259_ESCAPES.items():
         n += 1
-        got = table.get(ch)
-        R.ob('TAB5a', fn, sw, 'escape \\%s decodes to %s' % (chr(ch), want if isinstance(want, str) else 'byte %d' % want),
-             got == want, 'table entry: %s' % got, key='esc:%s' % chr(ch))
-    extra = [k for k in table if k != 'default' and k not in RFC8259_ESCAPES]
-    R.ob('TAB5a', fn, sw, 'no escape letter outside RFC 8259 is accepted', not extra,
-         'extra: %s' % [chr(k) for k in extra], key='esc-extra')
-    R.ob('TAB5a', fn, sw, 'unknown escapes are rejected', table.get('default') == 'fail', 'default arm: %s' % table.get('default'),
-         key='esc-default')
+        w = 'call' if want == 'utf16' else (ch if want == 'self' else want)
+        got = table.get(ch, set()) - {'fail'} if table.get(ch) != {'fail'} else {'fail'}
+        R.ob('TAB5a', fn, None, 'escape \\%s decodes to %s' % (chr(ch), 'a UTF-16 conversion' if want == 'utf16' else 'byte %d' % w),
+             got == {w}, 'every path for this letter: %s' % sorted(map(str, got)), key='esc:%s' % chr(ch))
+    extra = [d for d in range(256) if d not in RFC8259_ESCAPES and table[d] - {'fail'}]
+    R.ob('TAB5a', fn, None, 'no escape letter outside RFC 8259 is accepted', not extra,
+         'all other 247 values fail' if not extra else 'accepted after a backslash: %s' % ', '.join(
+             '%s (byte %d -> %s)' % (repr(chr(d)), d, sorted(map(str, table[d] - {'fail'}))) for d in extra[:6]), key='esc-extra')
+    unrej = [d for d in range(256) if d not in RFC8259_ESCAPES and not table[d]]
+    R.ob('TAB5a', fn, None, 'unknown escapes are rejected', not unrej and not bad_shape,
+         'a failing path exists for each' if not unrej and not bad_shape else
+         ('no path at all for bytes %s' % unrej[:6] if unrej else 'byte %d, path ending at line %d: %s' % bad_shape[0]), key='esc-default')
+    sw = None
     # the UTF-16 arm rejects a zero result
     cfg = fn.cfg()
     zero_checked = False
